@@ -14,11 +14,16 @@ func init() {
 	register(&PropDef{
 		ID: "C11",
 		Explain: "Absence of shared mutable state between concurrent validation calls, as an effects inventory over ALL functions reachable from the entry points (static call graph + every rule function + closures): C11-GLOBAL no package-level variable is written, and no global map is updated, on a validation path — every global is never written after init, or is a concurrency-safe object (sync.Pool, sync.Once, *regexp.Regexp, the mutex-guarded cache proved by the C10 rule), or is written only by the registration functions, which are unreachable from validation; " +
-			"C11-POOL for every pooled type each field is assigned after Get on all constructor paths or reset before Put on all releaser paths, Put happens only in the releaser, the releaser runs deferred (nothing touches the object afterwards), and pooled builders are Reset before Put; C11-LRU the cache's lock discipline (rule C10-LOCK). " +
+			"C11-POOL for every pooled type each field is assigned after Get on all constructor paths or reset before Put on all releaser paths, Put happens only in the releaser, the releaser runs deferred (nothing touches the object afterwards), and pooled builders are Reset before Put; C11-LRU the cache's lock discipline (rule C10-LOCK); C11-CACHE an entry of the shared type cache is complete when it is published and is never written afterwards (rules C08-PUBLISH, C08-COPY). " +
 			"This is a lockset/effects argument over all schedules. Not covered: races inside user callbacks; registration concurrent with validation (property's assumption).",
 		Assume:  []string{"global function registration happens before concurrent validation starts (stated in the property)"},
 		Trusted: []string{"go/types", "go/ssa", "sync.Pool / strings.Builder semantics"},
-		Run:     func(c *Ctx) { runC11Global(c, "C11"); runC11Pool(c, "C11"); runLock(c, "C11-LRU") },
+		Run: func(c *Ctx) {
+			runC11Global(c, "C11")
+			runC11Pool(c, "C11")
+			runLock(c, "C11-LRU")
+			importRules(c, "C08", runC08, "C11-CACHE", "entries of the shared type cache are complete when published and never written afterwards (rules C08-PUBLISH, C08-COPY): concurrent validations of one type read the same immutable entry", 2, ruleIn("C08-PUBLISH", "C08-COPY"))
+		},
 	})
 	register(&PropDef{
 		ID: "C12",
